@@ -19,6 +19,12 @@ const (
 	bShort    beh = 'S' // return a result without calling next
 	bShortErr beh = 'E' // return a *JSONRPCError without calling next
 	bFail     beh = 'F' // return (nil, error) without calling next
+	// further modify-request behaviours (scenario "rewrite"); all of them keep req.ID, append their tag suffix
+	// to arguments.tag and derive a context, exactly like Q
+	bModIn  beh = 'I' // rewrite req.Params on the object it was given, pass the same pointer on
+	bRwCopy beh = 'M' // copy the request, set another Method (and the params that method needs) on the copy
+	bRwIn   beh = 'N' // set another Method (and params) on the object it was given, pass the same pointer on
+	bRwNew  beh = 'W' // build a whole new request object (only the id is taken over) with another Method
 	// conditional variants: act only on requests whose id ends in "-bad", otherwise pass
 	bFailBad     beh = 'f'
 	bShortBad    beh = 's'
@@ -26,6 +32,14 @@ const (
 )
 
 var sixBehaviours = []beh{bPass, bModReq, bModRes, bShort, bShortErr, bFail}
+
+// tenBehaviours is the alphabet of the rewrite scenario.
+var tenBehaviours = []beh{bPass, bModReq, bModRes, bShort, bShortErr, bFail, bModIn, bRwCopy, bRwIn, bRwNew}
+
+func (b beh) rewritesMethod() bool { return b == bRwCopy || b == bRwIn || b == bRwNew }
+func (b beh) modifiesRequest() bool {
+	return b == bModReq || b == bModIn || b.rewritesMethod()
+}
 
 func isBad(id string) bool { return strings.HasSuffix(id, "-bad") }
 
@@ -68,19 +82,22 @@ func toBytes(c []beh) []byte {
 
 // mStage is one entry of a request's trace.
 type mStage struct {
-	Stage string `json:"stage"`           // m<i>-before | m<i>-after | handler
-	Marks string `json:"marks,omitempty"` // indices of the modReq middlewares whose context value is visible here
-	Tag   string `json:"tag,omitempty"`   // the request's tag argument as seen here
-	Inner string `json:"inner,omitempty"` // after-stages: what the inside returned (result | rpcerr:<code> | goerr | -)
+	Stage string `json:"stage"`            // m<i>-before | m<i>-after | handler
+	Meth  string `json:"method,omitempty"` // before-stages and handler: the request's method as seen here
+	Marks string `json:"marks,omitempty"`  // indices of the modReq middlewares whose context value is visible here
+	Tag   string `json:"tag,omitempty"`    // the request's tag argument as seen here
+	Inner string `json:"inner,omitempty"`  // after-stages: what the inside returned (result | rpcerr:<code> | goerr | -)
 }
 
 // mVal is what a stage returns.
 type mVal struct {
-	Class    string // result | rpcerr | goerr
-	Origin   string // handler | short | shortErr | fail
-	At       int    // index of the producing middleware (-1: handler)
-	Tag      string // handler results: the tag the handler saw
-	ResMarks []int  // modRes middlewares applied, innermost first
+	Class    string      // result | rpcerr | goerr
+	Origin   string      // handler | short | shortErr | fail
+	Method   string      // the request's method where the value was produced (decides the shape of a result)
+	Base     *baseAnswer // handler values of methods judged against the middleware-free reference answer
+	At       int         // index of the producing middleware (-1: handler)
+	Tag      string      // handler results: the tag the handler saw
+	ResMarks []int       // modRes middlewares applied, innermost first
 	Code     int
 	Msg      string
 }
@@ -105,36 +122,62 @@ func fmtMarks(m []int) string {
 // handlerObservable: methods whose handler is user code that can append to the trace.
 func handlerObservable(method string) bool { return method == "tools/call" || method == "prompts/get" }
 
+// modelled: methods whose handler answer the interpreter knows by itself; every other method's answer is
+// taken from the reference answer of a middleware-free server (baseline.go).
+func modelled(method string) bool {
+	switch method {
+	case "tools/call", "prompts/get", "ping", "tools/list":
+		return true
+	}
+	return false
+}
+
+// evalEnv is what the interpreter needs beyond the chain: the method every rewriting middleware sets and
+// the reference answers of the core for the methods it does not model.
+type evalEnv struct {
+	targets []string                        // by chain index; "" for middlewares that leave the method alone
+	base    func(method string) *baseAnswer // nil result: no reference answer (the case cannot be judged)
+}
+
 // eval interprets chain[i:] for one request and appends the stages that run to tr.
-func eval(chain []beh, i int, id, method, tag string, marks []int, tr *[]mStage) mVal {
+func eval(env *evalEnv, chain []beh, i int, id, method, tag string, marks []int, tr *[]mStage) mVal {
 	if i == len(chain) {
 		if handlerObservable(method) {
-			*tr = append(*tr, mStage{Stage: "handler", Marks: fmtMarks(marks), Tag: tag})
+			*tr = append(*tr, mStage{Stage: "handler", Meth: method, Marks: fmtMarks(marks), Tag: tag})
 		}
-		return mVal{Class: "result", Origin: "handler", At: -1, Tag: tag}
+		if !modelled(method) {
+			b := env.base(method)
+			v := mVal{Class: b.Class, Origin: "handler", At: -1, Tag: tag, Method: method, Base: b, Code: b.Code, Msg: b.Msg}
+			return v
+		}
+		return mVal{Class: "result", Origin: "handler", At: -1, Tag: tag, Method: method}
 	}
-	*tr = append(*tr, mStage{Stage: fmt.Sprintf("m%d-before", i), Marks: fmtMarks(marks), Tag: tag})
+	*tr = append(*tr, mStage{Stage: fmt.Sprintf("m%d-before", i), Meth: method, Marks: fmtMarks(marks), Tag: tag})
 	var v mVal
 	inner := "-"
-	switch chain[i].effective(id) {
+	switch b := chain[i].effective(id); b {
 	case bPass:
-		v = eval(chain, i+1, id, method, tag, marks, tr)
+		v = eval(env, chain, i+1, id, method, tag, marks, tr)
 		inner = v.classStr()
-	case bModReq:
-		v = eval(chain, i+1, id, method, tag+fmt.Sprintf("+m%d", i), append(append([]int{}, marks...), i), tr)
+	case bModReq, bModIn, bRwCopy, bRwIn, bRwNew:
+		m2 := method
+		if b.rewritesMethod() {
+			m2 = env.targets[i]
+		}
+		v = eval(env, chain, i+1, id, m2, tag+fmt.Sprintf("+m%d", i), append(append([]int{}, marks...), i), tr)
 		inner = v.classStr()
 	case bModRes:
-		v = eval(chain, i+1, id, method, tag, marks, tr)
+		v = eval(env, chain, i+1, id, method, tag, marks, tr)
 		inner = v.classStr()
 		if v.Class != "goerr" { // an error travels outward untouched
 			v.ResMarks = append(append([]int{}, v.ResMarks...), i)
 		}
 	case bShort:
-		v = mVal{Class: "result", Origin: "short", At: i}
+		v = mVal{Class: "result", Origin: "short", At: i, Method: method}
 	case bShortErr:
-		v = mVal{Class: "rpcerr", Origin: "shortErr", At: i, Code: shortErrCode(i), Msg: fmt.Sprintf("shortErr:m%d:%s", i, id)}
+		v = mVal{Class: "rpcerr", Origin: "shortErr", At: i, Method: method, Code: shortErrCode(i), Msg: fmt.Sprintf("shortErr:m%d:%s", i, id)}
 	case bFail:
-		v = mVal{Class: "goerr", Origin: "fail", At: i, Code: -32603, Msg: fmt.Sprintf("fail:m%d:%s", i, id)}
+		v = mVal{Class: "goerr", Origin: "fail", At: i, Method: method, Code: -32603, Msg: fmt.Sprintf("fail:m%d:%s", i, id)}
 	}
 	*tr = append(*tr, mStage{Stage: fmt.Sprintf("m%d-after", i), Inner: inner})
 	return v
@@ -151,8 +194,9 @@ func resSuffix(marks []int) string {
 }
 
 // wantResult renders the result object the client must receive for a value of class "result".
-// tools/list with Origin handler is judged structurally (see judgeWire) and returns nil here.
-func (v mVal) wantResult(id, method string) map[string]interface{} {
+// tools/list and the reference-judged methods with Origin handler are judged in judgeWire and return nil here.
+func (v mVal) wantResult(id string) map[string]interface{} {
+	method := v.Method
 	if method == "tools/call" { // typed *CallToolResult all the way: modRes appends a text content
 		base := id + "|" + v.Tag
 		if v.Origin == "short" {
